@@ -83,6 +83,13 @@ CORPUS = [
      [(("desc",), ("child", "tags"), ("nth", -1))]),
     ('redact("rows[*][1]")', {"rows": [["zq0001x", "zq0002x", "zq0003x"], ["zq0004x", "zq0005x"], ["zq0006x"]]},
      [(("child", "rows"), ("wild", "[*]"), ("nth", 1))]),
+    # a base64-wrapped document whose REDACTED value holds bytes that are no UTF-8 (the only place where such bytes can be:
+    # untouched leaves with them come back as U+FFFD)
+    ('redact("a.json().pw")', {"a": K.Doc("json", True, {"pw": "zq0001~L1~x", "u": "zq0002x"})}, [(("child", "a"), ("json",), ("child", "pw"))]),
+    ('redact("a.json().t[*]", "zz")', {"a": K.Doc("json", True, {"t": ["zq0001~BIN~x", "zq0002~L1~x"], "u": "zq0003x"})},
+     [(("child", "a"), ("json",), ("child", "t"), ("wild", "[*]")), (("child", "zz"),)]),
+    ('redact("a.json().d.json().pw")', {"a": K.Doc("json", True, {"d": K.Doc("json", True, {"pw": "zq0001~L1~x", "k": "zq0002x"}), "u": "zq0003x"})},
+     [(("child", "a"), ("json",), ("child", "d"), ("json",), ("child", "pw"))]),
 ]
 
 
